@@ -1,8 +1,9 @@
 import VlsModel.Drv.Common
-/- Property C11 uses the `nodereq` model registered in `Drv/C10.lean`. -/
+import VlsModel.Drv.Backup
+/- Property C11 uses the `nodereq` model registered in `Drv/C10.lean` and, for the composite persister, `backup`. -/
 namespace VlsModel.Drv.C11
 open VlsModel.Drv
 
-def models : List (String × Model) := []
+def models : List (String × Model) := [("backup", Backup.model)]
 
 end VlsModel.Drv.C11
